@@ -74,7 +74,8 @@ def mk_learner(kind, param):
     if kind == "integ":
         return lambda: adaptive.IntegratorLearner(lambda x: x, bounds=(-1.0, 1.0), tol=1e-8)
     if kind == "lnd":
-        return lambda: adaptive.LearnerND(lambda p: p[0], bounds=[(-1.0, 1.0), (-1.0, 1.0)])
+        # (a non-square domain: LearnerND works in coordinates scaled to the unit square)
+        return lambda: adaptive.LearnerND(lambda p: p[0] + 0.01 * p[1], bounds=[(-1.0, 1.0), (0.0, 100.0)])
     if kind == "l2d":
         return lambda: adaptive.Learner2D(lambda p: 40.0 * p[0] + 7.0 * p[1] * p[1], bounds=[(-1.0, 1.0), (-1.0, 1.0)])
     raise ValueError(kind)
